@@ -33,7 +33,7 @@ LEVEL_NOTE = ("Trusted: the oracle's reading of the documentation (DESIGN.md 4.C
               "freshness is C15's business).")
 TIERS = {
     "quick": {"runs": 7000, "max_ops": 30},
-    "thorough": {"runs": 300000, "max_ops": 30, "wall_cap": 1500},
+    "thorough": {"runs": 300000, "max_ops": 60, "wall_cap": 1500},
 }
 RULE = ("history = terminal profile (size 1-300 x 1-120, cell 1-40 px, pixels via ioctl / query "
         "/ none) + 1-3 images (block, kitty, iterm2; source 1-4000 px incl. extreme aspect "
